@@ -835,6 +835,72 @@ def _flag_means_key_not_set(eng, fi, flag, key, op):
     return found
 
 
+# --------------------------------------------------------------------------------------------- C07-11
+def rule_definite_assignment(eng, rep, rule="C07-11.locals-are-assigned-before-use"):
+    """A local that is read on a path on which it was never assigned raises UnboundLocalError in the middle of a solve.  Every such
+    (function, variable) pair must be in the frozen, confirmed-by-reading table; anything else is reported."""
+    reach = eng.reachable_from_solve()
+    okset = dict(((f, v), r) for (f, v, r) in tables.MAYBE_UNDEFINED_OK)
+    seen_ok = set()
+    nuse = 0
+    for fid in sorted(reach):
+        fi = eng.prog.functions[fid]
+        if fi.is_lambda:
+            continue
+        cfg = eng.cfg(fi)
+        reachable = cfg.reachable()
+        locs = eng.res.locals_of[fi.fid] - set(fi.all_params)
+        # names bound by comprehensions / lambdas inside this function are not locals of it
+        inner = set()
+        for node in eng.prog.own_nodes(fi):
+            if isinstance(node, (ast.ListComp, ast.SetComp, ast.DictComp, ast.GeneratorExp)):
+                for gen in node.generators:
+                    for t in ast.walk(gen.target):
+                        if isinstance(t, ast.Name):
+                            inner.add(t.id)
+        defnodes = {}
+        for x in cfg.g.nodes:
+            strong, weak = cfg.defs_of(x)
+            for v in strong:
+                defnodes.setdefault(v, []).append(x)
+        flagged = set()
+        for node in eng.prog.own_nodes(fi):
+            if not (isinstance(node, ast.Name) and isinstance(node.ctx, ast.Load) and node.id in locs and node.id not in inner):
+                continue
+            if eng.res.scope_of(fi, node.id) is not fi or node.id in flagged:
+                continue
+            try:
+                n = cfg.cfg_node(node)
+            except AnalysisError:
+                continue
+            if n not in reachable:
+                continue
+            nuse += 1
+            p = cfg.path_avoiding(cfg.entry, n, [x for x in defnodes.get(node.id, []) if x != n])
+            if p is None:
+                continue
+            flagged.add(node.id)
+            site = eng.where(fi, node)
+            if (fid, node.id) in okset:
+                seen_ok.add((fid, node.id))
+                rep.note(rule, site, "`%s` is assigned on some paths only -- confirmed safe: %s" % (node.id, okset[(fid, node.id)]))
+            else:
+                rep.bad(rule, site, "%s|maybe-unassigned|%s" % (fid, node.id),
+                        "local `%s` can be read on a path on which it was never assigned (UnboundLocalError)" % node.id, path=cfg.describe_path(p)[-12:])
+    rep.ok(rule, "package", "%d reads of locals in functions reachable from solve: every read is preceded by an assignment on every path, or is one of the %d confirmed exceptions" % (nuse, len(seen_ok)))
+    # the exception for the S-FISTA loop relies on the parameter table
+    defaults, typed = param_registry(eng)
+    tup = typed.get("func_tol.max_iters")
+    lo = const_value(tup.elts[2]) if tup is not None and len(tup.elts) == 4 else None
+    if ("trust_region.ctrsbox_sfista", "gnew") in seen_ok:
+        if lo is not None and lo >= 1:
+            rep.ok(rule, "dfols/params.py:ParameterList.param_type", "func_tol.max_iters >= %s: the S-FISTA loop that assigns gnew runs at least once" % lo)
+        else:
+            rep.bad(rule, "dfols/params.py:ParameterList.param_type", "trust_region.ctrsbox_sfista|zero-iterations-allowed|gnew",
+                    "func_tol.max_iters = %s is accepted, but with zero S-FISTA iterations `gnew` is never assigned (UnboundLocalError) and the smoothing parameter divides by zero" % lo)
+    rep.require_count(rule, "reads of locals analysed", nuse, 1500)
+
+
 def run(eng, rep):
     rep.explain("C07: call conformance of every resolved internal call (T10); shape of the graceful input-error path in solve (T2); "
                 "guard present for each documented invalid-argument class (frozen table, matched on normalised conditions); "
@@ -852,5 +918,6 @@ def run(eng, rep):
     rule_raises(eng, rep)
     rule_exit_info_nonnull(eng, rep)
     rule_internal_param_updates(eng, rep)
+    rule_definite_assignment(eng, rep)
     from . import c20
     c20.rule_str_never_formats_none(eng, rep, rule="C07-8.printing")
